@@ -154,6 +154,14 @@ func dstFor(kind string, src dstOpts, maxSrcRows int64) dstOpts {
 		} else {
 			d.Codec = "snappy"
 		}
+	case "regress":
+		// the configuration the defect repaired by bdd71f3 was found with: another codec, 1 KiB pages
+		if d.Codec == "snappy" {
+			d.Codec = "gzip"
+		} else {
+			d.Codec = "snappy"
+		}
+		d.PageBuffer = 1024
 	case "version":
 		d.PageVersion = 3 - d.PageVersion
 	case "encoding":
@@ -986,6 +994,89 @@ func rowWellFormed(root *gen.Node, row parquet.Row) bool {
 	return true
 }
 
+// ---- Coq syntax of the attribute vectors (cases.v) ----
+
+func coqBoolCh(ch byte) string {
+	if ch == '1' {
+		return "true"
+	}
+	return "false"
+}
+
+func coqHexN(h string) string {
+	v, _ := strconv.ParseUint(h, 16, 64)
+	return fmt.Sprintf("%d%%N", v)
+}
+
+func coqClass(s string) string {
+	switch {
+	case s == "F":
+		return "CFile"
+	case s == "B":
+		return "CBuf"
+	case s == "O":
+		return "COther"
+	case strings.HasPrefix(s, "R"):
+		return "(CRange " + coqClass(s[1:]) + ")"
+	}
+	return "COther"
+}
+
+var coqPageType = map[string]string{"0": "PTData", "1": "PTIndex", "2": "PTDict", "3": "PTDataV2"}
+
+func coqCol(tok string) string {
+	f := strings.Split(tok, ":")
+	fl := f[1]
+	var stats []string
+	if f[9] != "_" {
+		for _, s := range strings.Split(f[9], "/") {
+			pe := strings.Split(s, ".")
+			stats = append(stats, fmt.Sprintf("(%s, %s)", coqPageType[pe[0]], coqHexN(pe[1])))
+		}
+	}
+	bc := "None"
+	if f[6] != "N" {
+		bc = "(Some " + coqHexN(f[6]) + ")"
+	}
+	return fmt.Sprintf("{| c_class := %s; c_src_encrypted := %s; c_dst_enc_key := %s; c_src_type := %s; c_dst_type := %s; c_src_codec := %s; c_dst_codec := %s; "+
+		"c_dst_filter := %s; c_src_bloom_offset := %s; c_src_bloom_length := %s; c_dst_bloom_codec := %s; c_src_bloom_header_ok := %s; c_src_bloom_split_block := %s; "+
+		"c_src_bloom_xxhash := %s; c_src_bloom_uncompressed := %s; c_src_bloom_num_bytes := %s; c_dst_filter_size := %s; c_src_column_index := %s; c_src_offset_index := %s; "+
+		"c_src_encoding_stats := [%s]; c_dst_page_type := %s; c_dst_encoding := %s; c_dst_dict := %s; c_src_page_header_stats := %s; c_dst_page_header_stats := %s |}",
+		coqClass(f[0]), coqBoolCh(fl[0]), coqBoolCh(fl[1]), coqHexN(f[2]), coqHexN(f[3]), coqHexN(f[4]), coqHexN(f[5]),
+		coqBoolCh(fl[2]), coqBoolCh(fl[3]), coqBoolCh(fl[4]), bc, coqBoolCh(fl[5]), coqBoolCh(fl[6]),
+		coqBoolCh(fl[7]), coqBoolCh(fl[8]), coqHexN(f[7]), coqHexN(f[8]), coqBoolCh(fl[9]), coqBoolCh(fl[10]),
+		strings.Join(stats, "; "), coqPageType[f[10]], coqHexN(f[11]), coqBoolCh(fl[11]), coqBoolCh(fl[12]), coqBoolCh(fl[13]))
+}
+
+var coqKind = map[string]string{"F": "KFile", "B": "KBuffer", "R": "KRange", "M": "KMulti", "G": "KMerged", "S0": "(KSortedSegments false)", "S1": "(KSortedSegments true)",
+	"C": "KConverted", "D": "KDedup", "E": "KEmpty", "X": "KForeign"}
+
+// coqTree consumes the preorder node list produced by treeToken.
+func coqTree(nodes *[]string) string {
+	t := (*nodes)[0]
+	*nodes = (*nodes)[1:]
+	f := strings.Split(t, "!")
+	var cols []string
+	if f[5] != "_" {
+		for _, c := range strings.Split(f[5], ",") {
+			cols = append(cols, coqCol(c))
+		}
+	}
+	n, _ := strconv.Atoi(f[4])
+	var segs []string
+	for i := 0; i < n; i++ {
+		segs = append(segs, coqTree(nodes))
+	}
+	return fmt.Sprintf("(RG %s %s %s %s [%s] [%s])", coqKind[f[0]], coqBoolCh(f[1][0]), coqBoolCh(f[2][0]), coqHexN(f[3]), strings.Join(cols, "; "), strings.Join(segs, "; "))
+}
+
+// coqPlanCase renders one call of WriteRowGroup: switches, writer, tree, fuel and the counters observed.
+func coqPlanCase(sw string, encrypt bool, maxRows int64, ncols int, nodes []string, fuel int, copies, reenc int64) string {
+	ns := append([]string(nil), nodes...)
+	return fmt.Sprintf("({| sw_disable_copy := %s; sw_disable_reencode := %s |}, {| w_schema_set := true; w_encryption := %s; w_max_rows := %d%%N; w_ncols := %d |}, %s, %d, %d, %d)",
+		coqBoolCh(sw[0]), coqBoolCh(sw[1]), core.CoqBool(encrypt), maxRows, ncols, coqTree(&ns), fuel, copies, reenc)
+}
+
 // ---- reading the output ----
 
 func canonRows(rows []parquet.Row) []string {
@@ -1041,6 +1132,8 @@ func swToken(s string) string {
 func check(c *core.Ctx, cs c11Case) (bucket string, nontrivial bool) {
 	bucket = fmt.Sprintf("%s%s>%s/%s", cs.Shape, cs.Src, cs.Dst, cs.Switch)
 	defer setSwitches("")
+	parquet.VerifSetDisableMergeRefinement(cs.Switch == "norefine")
+	defer parquet.VerifSetDisableMergeRefinement(false)
 	defer func() {
 		if r := recover(); r != nil {
 			violation(c, "panic", fmt.Sprintf("%s: the library panicked: %v", bucket, core.Trunc(fmt.Sprint(r), 300)), cs)
@@ -1153,6 +1246,8 @@ func check(c *core.Ctx, cs c11Case) (bucket string, nontrivial bool) {
 		copies  int64
 		reenc   int64
 		kind    string
+		nodes   []string
+		fuel    int
 	}
 	var plans []planned
 	fresh, err := b.mk()
@@ -1163,7 +1258,7 @@ func check(c *core.Ctx, cs c11Case) (bucket string, nontrivial bool) {
 		var nodes []string
 		depth := treeToken(b, rg, dcols, dst, paths, &nodes)
 		kind, _ := kindOf(rg)
-		p := planned{req: fmt.Sprintf("c11.plan %s %s %s %d", swToken(cs.Switch), wTok, strings.Join(nodes, ";"), depth+1), kind: kind}
+		p := planned{req: fmt.Sprintf("c11.plan %s %s %s %d", swToken(cs.Switch), wTok, strings.Join(nodes, ";"), depth+1), kind: kind, nodes: nodes, fuel: depth + 1}
 		if c.HasOracle() {
 			ans := strings.Split(c.Ask(p.req), " ")
 			if len(ans) != 3 {
@@ -1432,6 +1527,17 @@ func check(c *core.Ctx, cs c11Case) (bucket string, nontrivial bool) {
 		if !pathsOK {
 			mismatch(c, "corr:C11.path", core.Trunc(strings.Join(reqs, " | "), 1500), strings.Join(implPaths, ","), strings.Join(modelPaths, ","), cs)
 			return bucket, true
+		}
+		// a sample re-evaluated inside coqc (cases.v)
+		for i, p := range plans {
+			key := bucket + "/" + p.kind
+			if vmSeen[key] || len(vmPlans) >= 60 || len(p.req) > 6000 {
+				continue
+			}
+			vmSeen[key] = true
+			dc, dr := int64(0), int64(0)
+			fmt.Sscanf(implPaths[i], "copy=%d reencode=%d", &dc, &dr)
+			vmPlans = append(vmPlans, coqPlanCase(swToken(cs.Switch), dst.Encrypt, maxRows, len(paths), p.nodes, p.fuel, dc, dr))
 		}
 		// row groups of the output: one per copy / re-encode / pack action
 		var wantGroups []int64
@@ -1706,6 +1812,7 @@ func probeClass(c *core.Ctx, f func()) string {
 	return r
 }
 var vmPlans []string
+var vmSeen = map[string]bool{}
 
 // ---- running ----
 
@@ -1789,8 +1896,11 @@ func run(c *core.Ctx) {
 		runBatches(c, cs)
 		// the same source through the ordinary check, with the page buffer the defect was found with
 		cs2 := cs
-		cs2.Dst = "codec"
+		cs2.Dst = "regress"
 		runCase(c, cs2, i == 0)
+		cs2.Gen.NRows = 400
+		cs2.RowLen = 110
+		runCase(c, cs2, false)
 		cs2.Dst = "version"
 		runCase(c, cs2, false)
 	}
@@ -1806,12 +1916,16 @@ func run(c *core.Ctx) {
 		}
 	}
 	// partially overlapping long inputs: range views
-	for i := 0; i < c.N(2, 6); i++ {
-		runCase(c, c11Case{Gen: gen.Case{Seed: int64(900 + i), NRows: 5200 + 700*i, MaxDepth: 1, MaxFields: 1, Codecs: []string{"snappy"}}, Shape: "sorted", Src: "merge-partial", Dst: []string{"same", "codec", "bloom"}[i%3], Parts: 2 + i%2}, false)
+	for i := 0; i < c.N(3, 8); i++ {
+		cs := c11Case{Gen: gen.Case{Seed: int64(900 + i), NRows: 5200 + 700*i, MaxDepth: 1, MaxFields: 1, Codecs: []string{"snappy"}}, Shape: "sorted", Src: "merge-partial", Dst: []string{"same", "codec", "bloom"}[i%3], Parts: 2 + i%2}
+		if i == 2 {
+			cs.Switch = "norefine" // VerifSetDisableMergeRefinement: no range views, the overlapping merge is read through Rows()
+		}
+		runCase(c, cs, false)
 	}
 
 	// generated cases
-	n := c.N(600, 9000)
+	n := c.N(1500, 9000)
 	for i := 0; i < n; i++ {
 		cs := c11Case{Gen: gen.Case{Seed: c.Seed*7919 + int64(i), NRows: []int{1, 5, 40, 130, 300}[c.Rng.Intn(5)], MaxDepth: 1 + c.Rng.Intn(3), MaxFields: 1 + c.Rng.Intn(5), Codecs: codecs, NullBias: c.Rng.Intn(8)}}
 		cs.Parts = 2 + c.Rng.Intn(3)
@@ -1849,12 +1963,14 @@ func run(c *core.Ctx) {
 	}
 
 	// a sample of the cases re-evaluated inside coqc
-	c.Vm("From Coq Require Import List Arith Bool.\nFrom PQ Require Import CopyPath.Batches.\nImport ListNotations.")
+	c.Vm("From Coq Require Import List Arith Bool NArith.\nFrom PQ Require Import CopyPath.Batches CopyPath.Decision.\nImport ListNotations.")
 	c.Vm("Definition cases : list (bool * list nat * list nat * list nat) := [\n  " + strings.Join(vmBatches, ";\n  ") + "].")
 	c.Vm("Definition same (a b : list nat) := if list_eq_dec Nat.eq_dec a b then true else false.")
 	c.Vm("Definition mismatches := filter (fun '(rep, pages, reps, cuts) => match batch_cuts rep 1024 pages reps with Some l => negb (same l cuts) | None => true end) cases.")
-	c.Vm("Definition M := Eval vm_compute in (length cases, map (fun '(_, p, _, c) => (p, c)) mismatches).\nPrint M.")
-	c.Res.VmCases = len(vmBatches)
+	c.Vm("Definition plan_cases : list (switches * writer * rg * nat * nat * nat) := [\n  " + strings.Join(vmPlans, ";\n  ") + "].")
+	c.Vm("Definition plan_mismatches := filter (fun '(sw, w, r, fuel, cc, rc) => negb (Nat.eqb (copy_count (plan fuel sw w r)) cc && Nat.eqb (reencode_count (plan fuel sw w r)) rc)) plan_cases.")
+	c.Vm("Definition M := Eval vm_compute in (length cases + length plan_cases, map (fun _ => 0) mismatches ++ map (fun '(_, _, _, _, cc, rc) => cc + rc) plan_mismatches).\nPrint M.")
+	c.Res.VmCases = len(vmBatches) + len(vmPlans)
 }
 
 func replay(c *core.Ctx, raw json.RawMessage) {
